@@ -164,7 +164,6 @@ _FALLBACK_METHOD_FROM_TD_NOWRAP = [
     "batch_size",
     "bytes",
     "cat_tensors",
-    "clear_refs_for_compile_",
     "data_ptr",
     "depth",
     "dim",
@@ -302,6 +301,7 @@ _FALLBACK_METHOD_FROM_TD = [
     "clamp_min_",
     "clear",
     "clear_device_",
+    "clear_refs_for_compile_",
     "complex128",
     "complex32",
     "complex64",
